@@ -26,13 +26,22 @@ IsUnsigned(s) ==
   /\ \A k \in DOMAIN s : s[k] \in Digits \cup {"."}
   /\ Cardinality({k \in DOMAIN s : s[k] = "."}) <= 1
   /\ \E k \in DOMAIN s : s[k] \in Digits
-IsNumeral(s) == IF s # <<>> /\ s[1] = "-" THEN IsUnsigned(Tail(s)) ELSE IsUnsigned(s)
-UnsignedVal(s) ==
+\* exponent notation (1e-05, 2.5e3): a mantissa, the letter e, an optionally signed whole exponent
+EPos(s) == IF \E k \in DOMAIN s : s[k] = "e" THEN CHOOSE k \in DOMAIN s : s[k] = "e" /\ \A j \in 1..(k - 1) : s[j] # "e" ELSE 0
+IsWhole(s) == LET t == IF s # <<>> /\ s[1] \in {"-", "+"} THEN Tail(s) ELSE s IN t # <<>> /\ \A k \in DOMAIN t : t[k] \in Digits
+WholeVal(s) == IF s[1] = "-" THEN -DigitsVal(Tail(s)) ELSE IF s[1] = "+" THEN DigitsVal(Tail(s)) ELSE DigitsVal(s)
+IsUnsignedX(s) == IF EPos(s) = 0 THEN IsUnsigned(s)
+                  ELSE IsUnsigned(SubSeq(s, 1, EPos(s) - 1)) /\ IsWhole(SubSeq(s, EPos(s) + 1, Len(s)))
+IsNumeral(s) == IF s # <<>> /\ s[1] = "-" THEN IsUnsignedX(Tail(s)) ELSE IsUnsignedX(s)
+UnsignedVal0(s) ==
   IF \E k \in DOMAIN s : s[k] = "."
   THEN LET d == CHOOSE k \in DOMAIN s : s[k] = "."
            ip == SubSeq(s, 1, d - 1)  fp == SubSeq(s, d + 1, Len(s))
        IN  Add(R(DigitsVal(ip)), Frac(DigitsVal(fp), Pow10(Len(fp))))
   ELSE R(DigitsVal(s))
+UnsignedVal(s) == IF EPos(s) = 0 THEN UnsignedVal0(s)
+                  ELSE LET m == UnsignedVal0(SubSeq(s, 1, EPos(s) - 1))  e == WholeVal(SubSeq(s, EPos(s) + 1, Len(s))) IN
+                       IF e >= 0 THEN Mul(m, R(Pow10(e))) ELSE Div(m, R(Pow10(-e)))
 NumeralVal(s) == IF s[1] = "-" THEN Neg(UnsignedVal(Tail(s))) ELSE UnsignedVal(s)
 
 N_unixtime == <<"u", "n", "i", "x", "t", "i", "m", "e">>
@@ -56,6 +65,7 @@ N_pd5 == <<"p", ".", "5">>                 \* numerals without a leading digit, 
 N_qd9 == <<"q", ".", "9">>
 N_pmd5 == <<"p", "-", ".", "5">>
 N_p5dot == <<"p", "5", ".">>
+N_p1em5 == <<"p", "1", "e", "-", "0", "5">>          \* exponent notation, as "%g" writes small thresholds
 N_p0 == <<"p", "0">>
 N_p5 == <<"p", "5">>
 N_p10 == <<"p", "1", "0">>
